@@ -110,6 +110,9 @@ void psAesReadyGCM(psAesGcm_t *ctx,
     Memset(ctx->EncCtr, 0, 16);
     Memcpy(ctx->EncCtr, IV, 12);
     ctx->EncCtr[15] = 2;
+    /* Start a fresh keystream: discard bytes left over from the previous
+       message (e.g. after a tag shorter than 16 bytes was fetched) */
+    ctx->OutputBufferCount = 0;
 
     psGhashUpdate(ctx, aad, aadLen, GHASH_DATATYPE_AAD);
     psGhashPad(ctx);
